@@ -406,6 +406,16 @@ def rule_cap(ctx, which, units=None, fnames=('search',)):
                     ok = _strip_cast(t[2][1]) == ('field', 'root_range', THIS)
                     obs.append(Ob('CAP', f, i, 'root estimate capped by root_range', fmt_term(t)[:120], OK if ok else VIOLATED, arm='root'))
             if not sites:
+                # the estimate may have been moved into a one-expression helper: look through it
+                from ir import expand_calls
+                for c in f.calls():
+                    if not reachable(f, c) or not (f.n(c).get('ct') or '').startswith('pgm::'):
+                        continue
+                    t0 = f.term(c, inline=True)
+                    te = norm_tparams(expand_calls(f.unit, t0))
+                    if te != t0 and te[0] == 'call' and te[1] == 'std::min' and len(te[2]) == 2 and _strip_cast(te[2][0])[0] == 'call' and _strip_cast(te[2][0])[1].endswith('::operator()'):
+                        sites.append((c, te))
+            if not sites:
                 if any(reachable(f, r) for r in f.returns()):
                     # segment_for_key estimates no position when EpsilonRecursive == 0; search() always must
                     if name == 'search' and not any(o.fn is f for o in obs):
@@ -415,8 +425,9 @@ def rule_cap(ctx, which, units=None, fnames=('search',)):
                 ok, desc, kt = cap_check(t)
                 # the cap is evaluated in a type as wide as the estimate: std::min<uint32_t> would truncate a size_t estimate
                 # (a far query wraps to a small position) before comparing it with the next intercept
-                cty = f.unit.type(f.n(i).get('t', 0)) or {}
-                m_node = f.n(i).get('args', [None])[0]
+                is_min = (f.n(i).get('ct') == 'std::min')
+                cty = (f.unit.type(f.n(i).get('t', 0)) or {}) if is_min else {}
+                m_node = f.n(i).get('args', [None])[0] if is_min else None
                 mty = (f.unit.type(f.n(f.strip(m_node, casts=True)).get('t', 0)) or {}) if m_node else {}
                 if ok and cty.get('k') == 'int' and mty.get('k') == 'int' and cty.get('bits', 64) < mty.get('bits', 0):
                     ok = False
